@@ -328,7 +328,9 @@ func (la *LockAnalysis) run(fn *ssa.Function, union bool) map[ssa.Instruction]Lo
 }
 
 // HeldAt returns, for every instruction of fn, the locks that are held on all paths reaching it (within fn).
-func (la *LockAnalysis) HeldAt(fn *ssa.Function) map[ssa.Instruction]LockSet { return la.run(fn, false) }
+func (la *LockAnalysis) HeldAt(fn *ssa.Function) map[ssa.Instruction]LockSet {
+	return la.run(fn, false)
+}
 
 // MayHeldAt returns the locks that may be held on some path.
 func (la *LockAnalysis) MayHeldAt(fn *ssa.Function) map[ssa.Instruction]LockSet {
